@@ -59,6 +59,13 @@ def formatTag (bytes : List UInt8) : String :=
   | 80 :: d :: _ => if 49 ≤ d && d ≤ 55 then "P" ++ String.singleton (Char.ofNat d.toNat) else "Px"
   | _ => "no-magic"
 
+/-- Two decode results agree if both are images with the same content, or both are REJECTIONS — whatever
+error each names (the property says "or an error", not which one). -/
+def sameDecode (a b : List String) : Bool :=
+  match a, b with
+  | [x], [y] => if x.startsWith "err:" && y.startsWith "err:" then true else x == y
+  | _, _ => a == b
+
 def handle (case impl : List String) : Verdict :=
   match case with
   | "parse" :: hex :: expect =>
@@ -76,7 +83,8 @@ def handle (case impl : List String) : Verdict :=
          | some (w, h) => (if w == 0 || h == 0 then ["zero-dim"] else []) ++ (if w * h > 4294967295 then ["product-overflow"] else [])
          | none => ["no-standard-header"])
       let v : Verdict := { tags := tags }
-      let v := v.withDiff (res != want) s!"model {" ".intercalate want}"
+      let v := v.withDiff (!sameDecode res want) s!"model {" ".intercalate want}"
+      let v := if res != want && sameDecode res want then v.addTag "error-kind-differs" else v
       let v := v.withSpec (rd != "rd:same") "read-pnm-differs" "read_pnm and parse_pnm disagree on the same bytes"
       let v := match judgeDecode bytes res with
         | some (k, m) => v.withSpec true k m
@@ -90,7 +98,7 @@ def handle (case impl : List String) : Verdict :=
     | some bt, some bb =>
       let (r1, r2) := Retro.splitAt "|" impl
       let v : Verdict := { tags := ["pair", formatTag bt, formatTag bb] }
-      let v := v.withDiff (r1 != parseTok bt || r2 != parseTok bb) s!"model {" ".intercalate (parseTok bt)} | {" ".intercalate (parseTok bb)}"
+      let v := v.withDiff (!sameDecode r1 (parseTok bt) || !sameDecode r2 (parseTok bb)) s!"model {" ".intercalate (parseTok bt)} | {" ".intercalate (parseTok bb)}"
       let v := match judgeDecode bt r1, judgeDecode bb r2 with
         | some (k, m), _ => v.withSpec true k m
         | _, some (k, m) => v.withSpec true k m
